@@ -24,6 +24,7 @@ type rolloutOutcome struct {
 	Updated   string
 	ReqCounts []int   // requests per rollout-phase sync (baseline only)
 	RevReqs   [][]int // per rollout-phase sync: indices of the requests on ControllerRevisions (baseline only)
+	RevDels   [][]int // ... and of the ControllerRevision deletions among them
 	Mixed     []bool
 }
 
@@ -359,13 +360,17 @@ func runRolloutWithCut(scn *Scn, f Factory, edits []int, midSyncs int, ogStyle i
 		}
 		if counted && plan.Sync < 0 {
 			out.ReqCounts = append(out.ReqCounts, len(t.Reqs))
-			var revIdx []int
+			var revIdx, delIdx []int
 			for i, r := range t.Reqs {
 				if r.Def.Resource == "controllerrevisions" {
 					revIdx = append(revIdx, i)
+					if r.Verb == "delete" {
+						delIdx = append(delIdx, i)
+					}
 				}
 			}
 			out.RevReqs = append(out.RevReqs, revIdx)
+			out.RevDels = append(out.RevDels, delIdx)
 			hasRev, hasChild := false, false
 			for _, r := range t.Reqs {
 				if isRevWrite(r) {
@@ -463,7 +468,7 @@ func runRolloutWithCut(scn *Scn, f Factory, edits []int, midSyncs int, ogStyle i
 		}
 	}
 	o := env.outcome()
-	o.ReqCounts, o.Mixed, o.RevReqs = out.ReqCounts, out.Mixed, out.RevReqs
+	o.ReqCounts, o.Mixed, o.RevReqs, o.RevDels = out.ReqCounts, out.Mixed, out.RevReqs, out.RevDels
 	if v := env.SharedStateViolation(); v != nil {
 		return o, v
 	}
@@ -562,6 +567,20 @@ func PropC09(c *vs.Case, f Factory, o RolloutOpts) error {
 			ct = revCuts[c.Int(len(revCuts))]
 			kind = kinds[c.Int(4)]
 			c.Class("cut-at-revision-request-after-orphaning")
+		}
+	}
+	if !o.Small {
+		// a sync that deletes several drained revisions: fail one that is not the last
+		var multi []cut
+		for s, idx := range base.RevDels {
+			for k := 0; k+1 < len(idx); k++ {
+				multi = append(multi, cut{s, idx[k]})
+			}
+		}
+		if len(multi) > 0 && c.Bool() {
+			ct = multi[c.Int(len(multi))]
+			kind = c.PickStr("err500", "conflict", "lost-response")
+			c.Class("cut-at-a-revision-delete-that-is-not-the-last")
 		}
 	}
 	cur = CutPlan{Sync: ct.s, Req: ct.r, Kind: kind}
